@@ -11,7 +11,7 @@ FUNCTIONS = ["validation::{validate_substitutes_and_derives_against_registry, re
 MODELS = c01.MODELS
 ASSUMPTIONS = ["registries: corpus 'modules', 'enum', 'generics' (nested paths, several entries with one path); settings paths are fork-chosen from a pool of known paths and unknown paths (proper suffix of a known path, same final identifier under another prefix, unrelated path)",
                "iteration order of the derive and substitute maps: every permutation (forked); the error lists are compared as sets of (path, set) entries with 'each path once'"]
-BOUNDS = {"quick": {"registered derive/attribute entries": "2 free (kind x path) + 1 fixed", "substitutes": "0-2", "pool": "6 paths"}, "thorough": {"registered entries": "3 free"}}
+BOUNDS = {"quick": {"registered derive/attribute entries": "2 free (kind x path) + 1 fixed", "substitutes": "0-2", "pool": "6 paths"}, "thorough": {"registered entries": "3 free on the `enum` registry (1.7 million paths on all four took more than 40 minutes), 2 free elsewhere with forked hash orders; similar-path queries on every corpus registry"}}
 OUTSIDE = ["more than 3 registered entries / 2 substitutes"]
 GLOBAL_WITNESSES = ("Ok", "Err")
 
@@ -148,7 +148,7 @@ def families(eng, tier, seed):
     C = corpus(); fams = [similar_family()]
     for n in (("containers", "collections", "modules") if tier == "quick" else list(C)): fams.append(similar_corpus_family("similar-paths-" + n, C[n]))
     for n in ("modules", "enum", "generics", "collections"):
-        fams.append(make_family("validate-%s" % n, C[n], 2 if tier == "quick" else 3, "fork" if n != "generics" or tier == "thorough" else "reversed"))
+        fams.append(make_family("validate-%s" % n, C[n], 3 if (tier == "thorough" and n == "enum") else 2, "fork" if n != "generics" or tier == "thorough" else "reversed"))
     return fams
 
 def parse_real(real):
